@@ -17,7 +17,7 @@ from sim.driver import Report
 PROP = "C12"
 TIERS = {"quick": {"pairs": 100, "envs": 7, "budget": 70.0}, "thorough": {"pairs": 1200, "envs": 12, "budget": 1500.0}}
 SCRATCH = "/dev/shm" if os.path.isdir("/dev/shm") else tempfile.gettempdir()
-E0 = {"route": "api", "heap": 0, "dir_seed": 0, "clock": "2001-02-03T04:05:06", "history": [], "cache": 0, "repeat": 1, "history_same_package": 0, "environ": None, "source_copy": None, "config_version": None, "config_text": None, "source_spelling": None, "optimize": 0, "init_roundtrip": 0}
+E0 = {"route": "api", "heap": 0, "dir_seed": 0, "clock": "2001-02-03T04:05:06", "history": [], "cache": 0, "repeat": 1, "history_same_package": 0, "environ": None, "source_copy": None, "config_version": None, "config_text": None, "source_spelling": None, "optimize": 0, "init_roundtrip": 0, "mixed_parity": 0}
 ROUTES = ["api", "api_file", "cli_flags", "cli_config", "cli_mixed"]
 
 
@@ -101,6 +101,13 @@ def gen_params(rng):
                                             ["class", ".*", "verifext.Base", False], ["class", "^P.*", "verifext.Party", False]], rng.choice([1, 2]))
         if rng.random() < 0.4:
             adv["substitutions"] = rng.sample([["class", "(.*)Type$", "\\1Kind"], ["field", "^name$", "title"], ["class", "^Item$", "Entry"], ["package", "urn:cyc:a", "alpha_ns"], ["module", "^b$", "bee"], ["class", "Stra\u00dfe", "Strasse"], ["field", "pr\u00e9nom", "first_name"]], rng.choice([1, 2]))
+        if rng.random() < 0.35:
+            # the attributes of <CompoundFields>: no flag of their own, they sit next to a value that has one
+            adv["output.compound_fields.default_name"] = rng.choice(["choice", "content", "items"])
+            adv["output.compound_fields.force_default_name"] = rng.random() < 0.4
+            adv["output.compound_fields.max_name_parts"] = rng.choice([1, 2, 3, 5])
+            adv["output.compound_fields.use_substitution_groups"] = rng.random() < 0.4
+            p["compound_fields__enabled"] = True
         if adv:
             p["adv"] = adv
     if rng.random() < 0.12:
@@ -139,7 +146,7 @@ def gen_env(rng, srcs):
             "XSDATA_ANYTHING": rng.choice(["0", "1"]),
         }
     if rng.random() < 0.2:
-        env["source_copy"] = rng.choice(["mirror/www.w3.org/schemas", "checkout/src", "a b/ü-dir", "x.xsd/json", "deep/" * 6 + "d"])
+        env["source_copy"] = rng.choice(["mirror/www.w3.org/schemas", "checkout/src", "a b/ü-dir", "x.xsd/json", "deep/" * 6 + "d", ".cache/checkout/src", "work/.hidden/v1.0~", "#tmp#/src"])
     if rng.random() < 0.3:
         # the version stamp of a project file written by another release; it is not an option
         env["config_version"] = rng.choice(["24.1", "23.8", "99.1", "", "unknown"])
@@ -149,6 +156,8 @@ def gen_env(rng, srcs):
         env["source_spelling"] = rng.choice(["rel", "dot", "slash", "dotdot", "uri"])
     if rng.random() < 0.2:
         env["init_roundtrip"] = 1  # the project file is refreshed with `xsdata init-config <file>` before it is used
+    if rng.random() < 0.5:
+        env["mixed_parity"] = 1
     if rng.random() < 0.1:
         env["optimize"] = 1  # python -O
     if rng.random() < 0.12:
@@ -251,7 +260,7 @@ def minimize_env(source, recursive, params, env, ref, sigkind):
     """Reset environment components to E0 one at a time while the difference persists."""
     best = dict(env)
     trials = 0
-    for key in ("source_copy", "environ", "history_same_package", "history", "cache", "repeat", "dir_seed", "heap", "init_roundtrip", "config_text", "config_version", "source_spelling", "optimize", "route", "clock", "hashseed"):
+    for key in ("source_copy", "environ", "history_same_package", "history", "cache", "repeat", "dir_seed", "heap", "init_roundtrip", "config_text", "config_version", "source_spelling", "optimize", "mixed_parity", "route", "clock", "hashseed"):
         default = E0.get(key, 0)
         if best.get(key, default) == default:
             continue
